@@ -21,6 +21,15 @@ CHECK_DEADLOCK FALSE
 
 def run(ctx):
     counts = {}
+    # the CSS property-index data of Defaulting.tla (inherited sets, initial values) is needed to enumerate all properties
+    from checks.c04 import CFG as DCFG
+    res = ctx.tlc("Defaulting", None, workers=8, cfg_text=DCFG % "kinds", timeout=900)
+    dscn, _, _ = ctx.scenario_lines(res)
+    meta = os.path.join(ctx.scratch, "meta.json")
+    with open(meta, "w") as g:
+        for l in open(dscn):
+            if '"mode":"meta"' in l:
+                g.write(l)
     for mode in ("vars", "blocks", "shorthands", "spellings"):
         res = ctx.tlc("Declarations", None, workers=16, cfg_text=CFG % mode, timeout=900)
         scn, cnt, first = ctx.scenario_lines(res)
@@ -28,7 +37,7 @@ def run(ctx):
             raise MachineryError("no scenario for mode " + mode)
         ctx.samples.extend(first[-1:])
         ver = os.path.join(ctx.scratch, "ver_%s.ndjson" % mode)
-        ctx.vdrive(["c08", "-in", scn, "-out", ver, "-timeout", "10s"])
+        ctx.vdrive(["c08", "-in", scn, "-out", ver, "-timeout", "10s", "-meta", meta])
         summ = ctx.consume_verdicts(ver)
         c = summ.get("counts", {})
         if c.get("scenarios", 0) != cnt:
@@ -38,11 +47,11 @@ def run(ctx):
     ctx.traces = total
     return ctx.finish("model_checking", {
         "exhaustive": True, "evaluations": total, "distinct_nontrivial": total - 1, "scenario_counts": counts,
-        "rule": "vars: 10^3 definition graphs x probe with/without fallback x inherited / non-inherited probe property; blocks: every sequence "
+        "rule": "vars: 19^3 definition graphs (literal, ill-typed, undefined, var() with/without fallback, nested fallback) x 5 probes (plain / fallback on width and text-indent, two references in margin); blocks: every sequence "
                 "of 1..4 declarations over 8 kinds (valid, overriding, shorthand, bad value, unknown property, var(), empty, !important); "
                 "shorthands: 5 TRBL families x 1..4 values over 4 tokens, 5 border-like shorthands x every ordered subset of width/style/color, "
-                "9 flex forms; spellings: 12 declarations x 10 spelling variants. All distinct TLC states.",
+                "9 flex forms, 10 columns forms, list-style and flex-flow subsets; spellings: 12 declarations x 10 spelling variants, 3 non-ASCII look-alikes, and every supported property with its explicit value (upper-case name, upper-case value, unknown identifier as value). All distinct TLC states.",
     }, assumptions=[
-        "fallbacks are literal (no var() inside a fallback); font, background, grid*, border-image and border-radius have no expansion oracle",
+        "font, background, grid*, border-image and border-radius have no expansion oracle",
         "the probe properties are width / text-indent / margins / borders / flex of one element under an empty user-agent sheet",
     ])
